@@ -293,9 +293,10 @@ fn intermediate_keys(doc: &Document, leaves: &[ObjectId]) -> BTreeSet<ObjectId> 
 fn check_dense(c: &mut Ctx, before: &Document, after: &Document, start: u32, strict_count: bool, case: &serde_json::Value) {
     let n = after.objects.len() as u32;
     let nums: Vec<u32> = after.objects.keys().map(|k| k.0).collect();
-    let want: Vec<u32> = (start..start + n).collect();
+    let want: Vec<u32> = (0..n as u64).map(|i| (start as u64 + i) as u32).collect();
     if nums != want { c.oracle_fail("dense:numbers", "object numbers are not start..start+n-1", case.clone()); }
-    if n > 0 && after.max_id != start + n - 1 { c.oracle_fail("dense:max_id", "max_id is not the last number", case.clone()); }
+    if n > 0 && after.max_id != start + (n - 1) { c.oracle_fail("dense:max_id", "max_id is not the last number", case.clone()); }
+    if n == 0 && after.max_id != start.saturating_sub(1) { c.oracle_fail("dense:max_id", "empty document: max_id is not start - 1", case.clone()); }
     if strict_count && after.objects.len() != before.objects.len() {
         c.oracle_fail("dense:count", "number of objects changed", case.clone());
     }
@@ -662,6 +663,7 @@ fn witnesses(c: &mut Ctx) {
         let rep2 = match &res2 { Ok(x) => format!("ok {}", show_doc(x)), Err((_, m)) => format!("panic {}", panic_class(m)) };
         c.corr(req2, rep2);
         let p2 = matches!(&res2, Err((s, m)) if s.starts_with("src/processor.rs") && panic_class(m) == "add");
-        c.witness("F-C10-c", p2, "5 objects, renumber_objects_with(u32::MAX - 4): the ids u32::MAX-4 ..= u32::MAX all fit, but `new_id += 1` after the last one overflows (overflow checks on)");
+        // fixed: reproduced = the call panics again although every id fits
+        c.witness("F-C10-c", p2, &format!("5 objects, renumber_objects_with(u32::MAX - 4), every id fits: {}", match &res2 { Ok(x) => format!("returned, max_id = {}", x.max_id), Err((s, m)) => format!("panic at {} ({})", s, m) }));
     }
 }
